@@ -861,9 +861,125 @@ void run_giveup_case(Args const& a, std::uint64_t c, Rng& rng)
 	r.sig(hstr(desc)); r.sample(desc);
 }
 
+// ---------------------------------------------------------------------------------------------
+// An acceptor gives its endpoint up while several connects are waiting in its queue (no accept posted yet): it is
+// re-opened (with or without an explicit close) and bound to another endpoint, listens again and runs an accept
+// loop there. Connects to the endpoint it left must not succeed (nobody listens there any more) and must not be
+// handed to the accepts of the new endpoint; connects to the new endpoint are paired as usual.
+void run_reopen_case(Args const& a, std::uint64_t c, Rng& rng)
+{
+	(void)a; (void)c;
+	Report& r = R();
+	Net net; EvLog log; OpLog ops;
+	net.log = &log;
+	static std::vector<std::int64_t> const lats = {1000, 1000000, 5000000, 20000000};
+	QSpec q; q.bw = rng.coin(1, 3) ? 50000000 : 0; q.lat_ns = rng.pick(lats); q.cap = 0;
+	net.def_net = {q};
+	ip::address const SA = addr("10.0.1.1");
+	int const nstale = 1 + rng.choose(4), nnew = 1 + rng.choose(2);
+	int const overload = rng.choose(3);
+	bool const explicit_close = rng.coin(1, 3);
+	std::unique_ptr<sim::simulation> sim(new sim::simulation(net));
+	M().last_clock = 0;
+	std::unique_ptr<asio::io_context> ns(new asio::io_context(*sim, SA));
+	std::vector<std::unique_ptr<asio::io_context>> nc;
+	for (int i = 0; i < nstale + nnew; ++i) nc.emplace_back(new asio::io_context(*sim, addr(fmt("10.1.%d.2", i + 1).c_str())));
+	std::unique_ptr<Sched> sched(new Sched(*ns));
+	std::unique_ptr<Runner> runner(new Runner(*sim));
+	ip::tcp::endpoint const e1(SA, 5000), e2(SA, std::uint16_t(rng.coin() ? 5001 : 6000));
+	std::unique_ptr<ip::tcp::acceptor> acc(new ip::tcp::acceptor(*ns));
+	{ error_code ec; API(acc->open(ip::tcp::v4(), ec)); API(acc->bind(e1, ec)); API(acc->listen(10, ec)); }
+	struct Cl { std::unique_ptr<ip::tcp::socket> s; TokIO tok; bool stale = false; int ec = -999; bool done = false; };
+	struct Ac { std::unique_ptr<ip::tcp::socket> s; TokIO tok; ip::tcp::endpoint pe; bool ok = false; };
+	std::vector<std::unique_ptr<Cl>> cl; std::vector<std::unique_ptr<Ac>> ac;
+	int accept_errors = 0;
+	std::int64_t const t_reopen = 4 * q.lat_ns + rng.pick(std::vector<std::int64_t>{0, 1000000, 50000000});
+	std::string const desc = fmt("acceptor leaves %s with %d connect(s) queued (%s, then bound to port %u) and accepts there with overload %d; %d connect(s) to the new endpoint; net %s"
+		, "10.0.1.1:5000", nstale, explicit_close ? "close + open" : "open without close", unsigned(e2.port()), overload, nnew, q.str().c_str());
+	r.cur_desc = desc;
+	std::function<void()> post_accept = [&]() {
+		if (ac.size() >= std::size_t(nstale + nnew) + 2 || accept_errors >= 3) return;
+		ac.emplace_back(new Ac()); Ac* A = ac.back().get();
+		std::snprintf(A->tok.mine.b, 16, "A00.%03d........", int(ac.size() - 1));
+		OpPtr op = ops.make("tcp.accept", 100);
+		auto done = [&, A](error_code const& ec) {
+			if (ec) ++accept_errors;
+			else { A->ok = true; A->tok.s = A->s.get(); A->tok.ops = &ops; A->tok.obj = 200 + int(ac.size()); A->tok.start(); }
+			post_accept();
+		};
+		if (overload == 0) { A->s.reset(new ip::tcp::socket(*ns)); API(acc->async_accept(*A->s, track1(op, done))); }
+		else if (overload == 1) { A->s.reset(new ip::tcp::socket(*ns)); API(acc->async_accept(*A->s, A->pe, track1(op, done))); }
+		else API(acc->async_accept([&, A, op, done](error_code const& ec, ip::tcp::socket peer) mutable {
+			on_invoke(*op, ec, 0); if (!ec) A->s.reset(new ip::tcp::socket(std::move(peer))); done(ec); }));
+	};
+	for (int i = 0; i < nstale + nnew; ++i)
+	{
+		cl.emplace_back(new Cl()); Cl* C = cl.back().get();
+		C->stale = i < nstale;
+		std::snprintf(C->tok.mine.b, 16, "C%03d............", i);
+		// connects to the old endpoint are made early enough for their SYN to be queued when the acceptor leaves;
+		// connects to the new one before or after the re-open (before: refused or queued is both fine, not judged then)
+		std::int64_t const t0 = C->stale ? rng.pick(std::vector<std::int64_t>{0, 1000, q.lat_ns}) : t_reopen + rng.pick(std::vector<std::int64_t>{1000, 2 * q.lat_ns, 100000000});
+		sched->at(t0, [&, C, i]() {
+			C->s.reset(new ip::tcp::socket(*nc[std::size_t(i)]));
+			OpPtr op = ops.make("tcp.connect", i);
+			API(C->s->async_connect(C->stale ? e1 : e2, track1(op, [&, C, i](error_code const& ec) {
+				C->ec = ec.value(); C->done = true;
+				if (ec) return;
+				C->tok.s = C->s.get(); C->tok.ops = &ops; C->tok.obj = i; C->tok.start(); })));
+		});
+	}
+	sched->at(t_reopen, [&]() {
+		error_code ec;
+		if (explicit_close) API(acc->close(ec));
+		API(acc->open(ip::tcp::v4(), ec));
+		API(acc->bind(e2, ec));
+		API(acc->listen(10, ec));
+		post_accept();
+	});
+	sched->start();
+	runner->run();
+	for (int i = 0; i < nstale + nnew; ++i)
+	{
+		Cl& C = *cl[std::size_t(i)];
+		if (C.stale)
+		{
+			if (C.done && C.ec == 0)
+				r.violation("C07", "connect-to-an-endpoint-the-acceptor-left-succeeded", fmt("client %d dialled %s, which the acceptor gave up before accepting anything; its connect completed successfully", i, "10.0.1.1:5000"));
+			continue;
+		}
+		if (!C.done || C.ec != 0) { r.violation("C07", "connect-to-reopened-acceptor:not-connected", fmt("client %d dialled the acceptor's new endpoint after it listened there and %s", i, C.done ? fmt("failed with %d", C.ec).c_str() : "never completed")); continue; }
+		Ac* peer = nullptr;
+		for (auto& A : ac) if (A->ok && A->tok.got.size() >= 16 && std::memcmp(A->tok.got.data(), C.tok.mine.b, 16) == 0) peer = A.get();
+		if (!peer || C.tok.got.size() != 16 || std::memcmp(C.tok.got.data(), peer->tok.mine.b, 16) != 0)
+			r.violation("C07", "connect-to-reopened-acceptor:not-paired", fmt("client %d is connected to the new endpoint but no accepted socket exchanged tokens with it", i));
+		else r.count("connects_paired_at_reopened_acceptor");
+	}
+	for (auto& A : ac)
+		if (A->ok && A->tok.got.size() >= 16 && A->tok.got[0] == 'C')
+		{
+			int const cid = std::atoi(std::string(reinterpret_cast<char const*>(A->tok.got.data()) + 1, 3).c_str());
+			if (cid >= 0 && cid < nstale)
+				r.violation("C07", "accept-at-new-endpoint-got-connect-to-old-endpoint", fmt("an accept posted after the acceptor moved to port %u was completed with client %d's connect to port 5000", unsigned(e2.port()), cid));
+		}
+	r.count("reopen_cases"); r.count("connects_queued_at_an_endpoint_the_acceptor_left", std::uint64_t(nstale));
+	runner.reset(); sched.reset();
+	for (auto& C : cl) C->s.reset();
+	for (auto& A : ac) A->s.reset();
+	acc.reset(); nc.clear(); ns.reset(); sim.reset();
+	r.count("clock_samples", M().clock_samples); M().clock_samples = 0;
+	r.sig(hstr(desc)); r.sample(desc);
+}
+
 void run_case(Args const& a, std::uint64_t c)
 {
 	bool const c13 = a.prop == "C13";
+	if (!c13 && c % 10 == 7)
+	{
+		Rng rng(hcomb(hcomb(a.seed, 0xC07C), c));
+		run_reopen_case(a, c, rng);
+		return;
+	}
 	if (!c13 && c % 10 == 8)
 	{
 		Rng rng(hcomb(hcomb(a.seed, 0xC07B), c));
